@@ -181,6 +181,21 @@ class Effect:
                                          self.facts.flow.max_depth)
         return self.facts.flow.atoms(e, self.fn, self.bind)
 
+    def kw_exprs(self, kw):
+        """[(expr, fn, bind)] of the value(s) passed for keyword `kw`:
+        the explicit keyword, or the entries of a `**mapping` built in
+        this function."""
+        e = Q.kwarg(self.call, kw)
+        if e is not None:
+            return [(e, self.fn, self.bind)]
+        out = []
+        for k in self.call.keywords:
+            if k.arg is None:
+                rec = self.facts.flow.record(k.value, self.fn, self.bind)
+                if rec and kw in rec:
+                    out += list(rec[kw])
+        return out
+
     def all_args(self, shallow=False):
         out = set()
         for a in list(self.call.args) + [k.value for k in
@@ -302,10 +317,24 @@ class Facts:
             out |= self.flow.atoms(r, fn, bind)
         return out
 
-    def stored(self, fn, attr, base='self'):
-        """Atoms of the values fn stores into `<base>.<attr>` (assignment,
+    def stored(self, fn, attr, base='self', depth=1):
+        """Atoms of the values fn -- or, for `self`, a helper method of the
+        same class it calls -- stores into `<base>.<attr>` (assignment,
         augmented assignment, or in-place mutation through append/extend/
         update/[k]=)."""
+        out, found = set(), False
+        frames = [(fn, None)]
+        if depth > 0 and base == 'self' and fn.cls is not None:
+            frames = [(g, b) for g, b in self.frames(fn, depth)
+                      if g.cls is fn.cls]
+        for g, b in frames:
+            r = self._stored_in(g, attr, base, b)
+            if r is not None:
+                found = True
+                out |= r
+        return out if found else None
+
+    def _stored_in(self, fn, attr, base, bind):
         out = set()
         found = False
         for n in walk_no_nested(fn.node):
@@ -323,7 +352,7 @@ class Facts:
                         isinstance(t0.value, ast.Name) and \
                         t0.value.id == base:
                     found = True
-                    out |= self.flow.atoms(v, fn)
+                    out |= self.flow.atoms(v, fn, bind)
             if isinstance(n, ast.Call) and isinstance(
                     n.func, ast.Attribute) and n.func.attr in (
                         'append', 'extend', 'update', 'add', 'insert',
@@ -335,7 +364,7 @@ class Facts:
                         isinstance(r.value, ast.Name) and r.value.id == base:
                     found = True
                     for a in n.args:
-                        out |= self.flow.atoms(a, fn)
+                        out |= self.flow.atoms(a, fn, bind)
         return out if found else None
 
     # -- effects -------------------------------------------------------------
@@ -360,14 +389,13 @@ class Facts:
                 memo = self.__dict__.setdefault('_rows_memo', {})
                 key = (id(p), self.flow._bkey(bind))
                 if key not in memo:
-                    memo[key] = self.flow.loop_rows(p, fn, bind)
+                    memo[key] = self.flow.loop_binds(p, fn, bind)
                 rows = memo[key]
                 if rows:
                     out = []
                     for row in rows:
                         b = dict(bind or {})
-                        for k, v in row.items():
-                            b['=' + k] = {'const:' + repr(v)}
+                        b.update(row)
                         out.append(b)
                     return out
             n = p
@@ -453,7 +481,42 @@ class Facts:
                     callee = self.flow.resolve_call(c, f)
                     if callee is not None:
                         go(callee, d - 1)
+                    # repository functions passed as values (callbacks,
+                    # functools.partial, map, ...)
+                    for a in list(c.args) + [k.value for k in c.keywords]:
+                        if isinstance(a, (ast.Name, ast.Attribute)):
+                            try:
+                                r = self.repo.resolve_expr(
+                                    f.module, a, self.repo.local_scope(f))
+                            except Exception:
+                                r = None
+                            if r is not None and r[0] == 'func':
+                                go(r[1], d - 1)
         go(fn, depth)
+        return out
+
+    def frames_p(self, fn, depth=2):
+        """Like frames(), with the call path: (function, binding, ((caller,
+        call node), ...))."""
+        out, seen = [], set()
+
+        def go(f, b, d, stack, path):
+            key = (f.fq, self.flow._bkey(b))
+            if key in seen or f.fq in stack:
+                return
+            seen.add(key)
+            out.append((f, b, path))
+            if d > 0:
+                for c0 in Q.calls(f.node, nested=False):
+                    callee = self.flow.resolve_call(c0, f)
+                    if callee is None:
+                        continue
+                    for b_ in self.spec_binds(c0, f, b):
+                        cb = self.flow._bind_args(c0, callee, f, b_, 0,
+                                                  set())
+                        go(callee, cb, d - 1, stack | {f.fq},
+                           path + ((f, c0),))
+        go(fn, None, depth, frozenset(), ())
         return out
 
     def frames(self, fn, depth=2):
@@ -666,6 +729,37 @@ class Facts:
                         for d in self._def_sites(nm.id, fn):
                             out |= self.control(d, fn, bind, _depth + 1,
                                                 _seen)
+                        out |= self._unpacked_flag_control(nm.id, fn, bind,
+                                                           _depth, _seen)
+        return out
+
+    def _unpacked_flag_control(self, name, fn, bind, _depth, _seen):
+        """`a, flag = helper(..)`: what decides the value of the flag inside
+        the helper (the control of the assignments to the returned local)."""
+        out = set()
+        for n in walk_no_nested(fn.node):
+            if not (isinstance(n, ast.Assign) and isinstance(
+                    n.value, ast.Call) and len(n.targets) == 1 and
+                    isinstance(n.targets[0], ast.Tuple)):
+                continue
+            idx = [i for i, t in enumerate(n.targets[0].elts)
+                   if isinstance(t, ast.Name) and t.id == name]
+            if not idx:
+                continue
+            callee = self.flow.resolve_call(n.value, fn)
+            if callee is None or callee is fn:
+                continue
+            b = self.flow._bind_args(n.value, callee, fn, bind, 0, set())
+            out |= self.control(n, fn, bind, _depth + 1, _seen)
+            for r in Q.returns(callee.node):
+                if isinstance(r.value, ast.Tuple) and idx[0] < len(
+                        r.value.elts):
+                    el = r.value.elts[idx[0]]
+                    out |= self.flow.atoms(el, callee, b)
+                    if isinstance(el, ast.Name) and _depth < 3:
+                        for d in self._def_sites(el.id, callee):
+                            out |= self.control(d, callee, b, _depth + 1,
+                                                _seen)
         return out
 
     def cfg_tests(self, node, fn):
@@ -823,12 +917,24 @@ class Facts:
                                 continue
                             b = self.flow._bind_args(st.value, callee, fn,
                                                      bind, 0, set())
-                            for r in walk_no_nested(callee.node):
-                                if isinstance(r, ast.Raise):
-                                    gs = self.guards_pol(r, callee)
+                            # raises in source order: a raise guarded by
+                            # tests already known (the earlier raises did
+                            # not fire) plus one more establishes the
+                            # negation of that one
+                            known = set()
+                            for r in sorted(
+                                    (x for x in walk_no_nested(callee.node)
+                                     if isinstance(x, ast.Raise)),
+                                    key=lambda x: (x.lineno, x.col_offset)):
+                                if True:
+                                    gs = [g for g in self.guards_pol(
+                                        r, callee)
+                                        if (id(g[0]), g[1]) not in known]
                                     if len(gs) == 1:
                                         out.append((gs[0][0], not gs[0][1],
                                                     callee, b))
+                                        known.add((id(gs[0][0]),
+                                                   not gs[0][1]))
             n = p
         return out
 
@@ -887,11 +993,64 @@ class Facts:
             leaves(t, pos)
         return out
 
+    def _failed_lookups(self, node, fn):
+        """Subscript expressions X[k] whose lookup is known to have raised
+        KeyError when `node` executes: `node` is in the `except KeyError`
+        handler of a try whose body holds that single lookup, or follows
+        such a try whose body ends in `return` (the try/except spelling of
+        `if k in X: return X[k]`)."""
+        out = []
+
+        def catches_keyerror(h):
+            if h.type is None:
+                return False
+            return any(isinstance(x, ast.Name) and x.id in (
+                'KeyError', 'LookupError') for x in ast.walk(h.type))
+
+        def single_lookup(tr):
+            subs = [x for st in tr.body for x in ast.walk(st)
+                    if isinstance(x, ast.Subscript) and isinstance(
+                        x.ctx, ast.Load)]
+            calls = [x for st in tr.body for x in ast.walk(st)
+                     if isinstance(x, ast.Call)]
+            return subs[0] if len(subs) == 1 and not calls else None
+        n = node
+        while n is not None and n is not fn.node:
+            p = getattr(n, '_parent', None)
+            if isinstance(p, ast.ExceptHandler) and catches_keyerror(p):
+                tr = getattr(p, '_parent', None)
+                if isinstance(tr, ast.Try):
+                    s_ = single_lookup(tr)
+                    if s_ is not None:
+                        out.append(s_)
+            for field in ('body', 'orelse', 'finalbody'):
+                blk = getattr(p, field, None)
+                if isinstance(blk, list) and any(n is x for x in blk):
+                    for st in blk[:[id(x) for x in blk].index(id(n))]:
+                        if isinstance(st, ast.Try) and st.body and \
+                                isinstance(st.body[-1], ast.Return) and \
+                                not st.orelse and not st.finalbody and all(
+                                    catches_keyerror(h) and not any(
+                                        isinstance(x, (ast.Return,
+                                                       ast.Raise))
+                                        for b_ in h.body
+                                        for x in ast.walk(b_))
+                                    for h in st.handlers):
+                            s_ = single_lookup(st)
+                            if s_ is not None:
+                                out.append(s_)
+            n = p
+        return out
+
     def guard_compares(self, node, fn, bind=None):
         """(operator, left atoms, right atoms) of the comparisons known to
         hold when `node` executes (operators of guards that were false are
-        inverted: after `if x != A: continue`, `x == A` holds)."""
+        inverted: after `if x != A: continue`, `x == A` holds; a lookup
+        that raised KeyError is `k not in X`)."""
         out = []
+        for s_ in self._failed_lookups(node, fn):
+            out.append(('NotIn', self.flow.atoms(s_.slice, fn, bind),
+                        self.flow.atoms(s_.value, fn, bind)))
         todo = [(t, pos, fn, bind) for t, pos in self.guards_pol(node, fn)]
         todo += self.checker_guards(node, fn, bind)
         for t, pos, tf, tb in todo:
@@ -975,6 +1134,21 @@ class Facts:
             tb = g.stmt_of(nb)
         except Exception:
             return False
+        # `na` is (inside) an argument of the call `nb`: arguments are
+        # evaluated before the call is made (unless under a conditional
+        # expression / short-circuit operator in between)
+        if isinstance(nb, ast.Call) and na is not nb:
+            n, cond = na, False
+            while n is not None and n is not nb and n is not fa.node:
+                p = getattr(n, '_parent', None)
+                if isinstance(p, (ast.IfExp, ast.BoolOp, ast.Lambda,
+                                  ast.ListComp, ast.GeneratorExp,
+                                  ast.SetComp, ast.DictComp)):
+                    cond = True
+                n = p
+            if n is nb and not cond and not any(
+                    x is na for x in ast.walk(nb.func)):
+                return True
         for c in self._dom_candidates(fa, na):
             if c is not tb and g.dominates(c, tb):
                 return True
@@ -997,6 +1171,97 @@ class Facts:
         return all(self.only_called_from(self.repo.enclosing_func(c),
                                          allowed, _depth + 1)
                    for m, c, exact in callers)
+
+    def context_manager(self, fn):
+        """Phases of a context-manager function, in either spelling:
+
+        * a generator (`@contextmanager`): effects that dominate the
+          `yield`, effects in a `finally` around it, the yielded value;
+        * a function returning `Cls(args)` where Cls defines __enter__ /
+          __exit__: the unconditional effects of those methods, analysed
+          for an instance whose fields are what __init__ stores from the
+          constructor arguments; the value __enter__ returns.
+
+        Returns None when fn is neither, else a dict with `enter`
+        (effects), `exit` (effects on every exit), `value` (atoms)."""
+        ys = [n for n in walk_no_nested(fn.node)
+              if isinstance(n, (ast.Yield, ast.YieldFrom))]
+        if ys:
+            enter, exit_, value = [], [], set()
+            effs = self.effects(fn, lambda e: True, depth=1)
+            g = self.cfg(fn)
+            for e in effs:
+                top = e.path[0][1]
+                try:
+                    st = g.stmt_of(top)
+                except Exception:
+                    continue
+                if all(st is not g.stmt_of(y) and g.dominates(
+                        st, g.stmt_of(y)) for y in ys):
+                    enter.append(e)
+                n = top
+                while n is not None and n is not fn.node:
+                    p = getattr(n, '_parent', None)
+                    if isinstance(p, ast.Try) and any(
+                            n is s_ for s_ in p.finalbody) and any(
+                                isinstance(x, (ast.Yield, ast.YieldFrom))
+                                for b_ in p.body for x in ast.walk(b_)):
+                        exit_.append(e)
+                        break
+                    n = p
+            for y in ys:
+                if y.value is not None:
+                    value |= self.flow.atoms(y.value, fn)
+            return {'enter': enter, 'exit': exit_, 'value': value,
+                    'form': 'generator'}
+        rets = [r.value for r in Q.returns(fn.node) if r.value is not None]
+        if not rets or not all(isinstance(r, ast.Call) for r in rets):
+            return None
+        enter, exit_, value = [], [], set()
+        for r in rets:
+            try:
+                res = self.repo.resolve_expr(fn.module, r.func,
+                                             self.repo.local_scope(fn))
+            except Exception:
+                res = None
+            if res is None or res[0] != 'class':
+                return None
+            ci = res[1]
+            o1, en = ci.find_method('__enter__')
+            o2, ex = ci.find_method('__exit__')
+            o3, init = ci.find_method('__init__')
+            if en is None or ex is None:
+                return None
+            inst = {'self': {self.flow._alloc(r, fn)}}
+            if init is not None:
+                # constructor call: arguments bind to the parameters
+                # after `self`
+                ib = {}
+                ps = [a.arg for a in init.args.posonlyargs + init.args.args]
+                ps = ps[1:] if ps else ps
+                for i_, a in enumerate(r.args):
+                    if isinstance(a, ast.Starred) or i_ >= len(ps):
+                        break
+                    ib[ps[i_]] = self.flow.atoms(a, fn)
+                for k in r.keywords:
+                    if k.arg:
+                        ib[k.arg] = self.flow.atoms(k.value, fn)
+                for t, v, n in self.stores(init._func, ib):
+                    for a in t:
+                        m = re.match(r'^self\.([A-Za-z_][A-Za-z_0-9]*)$', a)
+                        if m:
+                            inst.setdefault('.' + m.group(1), set()).update(v)
+            for meth, sink in ((en, enter), (ex, exit_)):
+                out = []
+                self._effects(meth._func, dict(inst), lambda e: True, 1, (),
+                              set(), out, frozenset(), frozenset(), ())
+                sink += [e for e in out
+                         if not self.guards(e.path[0][1], meth._func)]
+            for rr in Q.returns(en):
+                if rr.value is not None:
+                    value |= self.flow.atoms(rr.value, en._func, dict(inst))
+        return {'enter': enter, 'exit': exit_, 'value': value,
+                'form': 'class'}
 
     def before(self, fn, pred, node, depth=2):
         """Some statement of fn that performs an effect matching pred
